@@ -342,9 +342,6 @@ func (r *resolver) applyDeviation(y *Module, d *Deviation) error {
 		for _, unique := range d.Add.unique {
 			target.(*List).unique = append(target.(*List).unique, unique)
 		}
-		for _, must := range d.Add.musts {
-			target.(HasMusts).addMust(must)
-		}
 	}
 	if d.Replace != nil {
 		if d.Replace.configPtr != nil {
